@@ -404,7 +404,28 @@ func ruleR29_6(c *Check) {
 	r := c.Rule("R29.6", "E6", 1, "compactBuildTables.keepTable drops a table without reading it only when its smallest and its biggest user key both start with the same dropped prefix (the two HasPrefix tests use the same prefix variable of one iteration over dropPrefixes): then, and only then, every key in between has that prefix too",
 		"with several prefixes a table whose ends match two different prefixes also holds the keys between them: dropping it whole deletes keys that start with none of the prefixes")
 	f := w.F("badger.levelsController.compactBuildTables")
-	kt := f.LitVar("keepTable")
+	// the closure (whatever it is called) that ranges over the dropped prefixes; the function itself
+	// if that loop was written in place
+	dpF := w.Field("badger.compactDef.dropPrefixes")
+	kt := f
+	var find func(g *Fn)
+	find = func(g *Fn) {
+		for _, l := range g.Lits {
+			hit := false
+			l.walk(func(x ast.Node) bool {
+				if rs, ok := x.(*ast.RangeStmt); ok && w.fieldOf(rs.X) == dpF {
+					hit = true
+				}
+				return true
+			})
+			if hit {
+				kt = l
+				return
+			}
+			find(l)
+		}
+	}
+	find(f)
 	hp := w.Obj("bytes.HasPrefix")
 	n := 0
 	var k keyer
